@@ -358,7 +358,7 @@ func Reductions(m Module) []Module {
 				})
 				// drop the last type parameter when unused, simplify constraints, benign names
 				last := len(it.TParams) - 1
-				if !usesTParam(it, it.TParams[last].Name) {
+				if !usesTParam(it, it.TParams[last].Name) && !(last == 1 && it.TParams[0].Constraint == "fwd-slice") {
 					edit(func(x *Module) { y := &x.Pkgs[pi].Ifaces[ii]; y.TParams = y.TParams[:last] })
 				}
 				for k, tp := range it.TParams {
